@@ -21,7 +21,7 @@ pub enum Flavor {
 }
 
 const JGRID: [u64; 8] = [0, 1, 62, 124, 125, 187, 248, 249];
-const INST: [&str; 6] = ["inst", "My Service", "UPPER", "dev-1", "Caf\u{e9}", "x"];
+const INST: [&str; 7] = ["inst", "My Service", "UPPER", "dev-1", "Caf\u{e9}", "x", "Dot.ted"];
 const HOSTS: [&str; 5] = ["hosta.local.", "MyHost.local.", "node-7.local.", "UP.local.", "h.local."];
 const TYPES: [&str; 5] = ["_http._tcp.local.", "_alpha._udp.local.", "_printer._sub._http._tcp.local.", "_x-y._udp.local.", "_ipp._tcp.local."];
 
@@ -98,7 +98,7 @@ pub fn gen_world(prop: &str, flavor: Flavor, seed: u64, index: u64, tier: Tier) 
     let mut t_reg = 100 + rng.below(400);
     for k in 0..n_svc {
         let ty = TYPES[rng.below(5) as usize].to_string();
-        let inst = format!("{}{}", INST[rng.below(6) as usize], k);
+        let inst = format!("{}{}", INST[rng.below(7) as usize], k);
         let share = k > 0 && rng.below(3) == 0;
         let host = if share { specs[0].1.host.clone() } else { format!("{}{}{}", ["", "b", "C"][rng.below(3) as usize], k, HOSTS[rng.below(5) as usize]) };
         // addresses: per interface, usually the interface's own addresses
@@ -385,6 +385,18 @@ impl Property for C06 {
 
 /// Shared by C06 (no known answers) and C10 (known answers): judge every injected query.
 pub fn judge_queries(scn: &Scenario, tr: &Trace, c10: bool) -> Judged {
+    let mut j = judge_queries_inner(scn, tr, c10);
+    // Violations about a name with an escaped character in a label are tagged: questions for such names never match
+    // the daemon's own (escaped) spelling, a known finding.
+    for v in j.violations.iter_mut() {
+        if v.detail.contains("\\.") || v.detail.contains("\\\\") {
+            v.detail = format!("[name with '.' or '\\' in a label] {}", v.detail);
+        }
+    }
+    j
+}
+
+fn judge_queries_inner(scn: &Scenario, tr: &Trace, c10: bool) -> Judged {
     let mut j = Judged::default();
     let d = 0;
     let m = TxModel::build(scn, tr, d);
@@ -838,10 +850,12 @@ impl Property for C07 {
                     .iter()
                     .filter(|x| x.d == d && x.idx > a.idx && x.if_index == Some(ifx) && x.v4 == v4 && x.mcast && x.msg.as_ref().map(|mm| mm.is_response() && want.iter().all(|w| has_rec(&mm.answers, w))).unwrap_or(false))
                     .collect();
-                let ended_before_second = end_t <= a.t + 1000 + lat;
-                if !ended_before_second && horizon > a.t + 1000 + lat + 1 {
+                // (a registration that is replaced or withdrawn inside the window in which the second announcement may
+                // legitimately be late - after a stall - owes none)
+                let slack2 = lat + if stalled { 2000 } else { 0 };
+                let ended_before_second = end_t <= a.t + 1000 + slack2;
+                if !ended_before_second && horizon > a.t + 1000 + slack2 + 1 {
                     j.judgements += 1;
-                    let slack2 = lat + if stalled { 2000 } else { 0 };
                     let hit = later.iter().any(|x| x.t >= a.t + 1000 && x.t <= a.t + 1000 + slack2);
                     if hit {
                         j.probe("second-announcement");
@@ -1038,7 +1052,13 @@ impl Property for C09 {
                 let is_goodbye_of = |x: &Tx| -> bool {
                     x.d == d && x.if_index == Some(ifx) && x.v4 == v4 && x.msg.as_ref().map(|mm| mm.is_response() && mm.answers.iter().any(|r| r.ttl == 0 && (r.name.eq_ci(&s.fullname) || ptr_target(r).map(|n| n.eq_ci(&s.fullname)).unwrap_or(false)))).unwrap_or(false)
                 };
-                let gb: Vec<&Tx> = tr.tx.iter().filter(|x| x.step == end_step && is_goodbye_of(x)).collect();
+                // (the repeat of the goodbye of an earlier registration of the same name may fall into the same step: it
+                // carries that registration's SRV data, not this one's)
+                let of_other_registration = |x: &Tx| -> bool {
+                    let srv_here = m.srv_rec(s, 0, true);
+                    x.msg.as_ref().map(|mm| mm.answers.iter().any(|r| r.ty == wire::T_SRV && r.name.eq_ci(&s.fullname) && !r.same_data(&srv_here)) && m.svcs.iter().enumerate().any(|(k, o)| k != si && o.fullname.eq_ci(&s.fullname) && mm.answers.iter().any(|r| r.ty == wire::T_SRV && r.same_data(&m.srv_rec(o, 0, true))))).unwrap_or(false)
+                };
+                let gb: Vec<&Tx> = tr.tx.iter().filter(|x| x.step == end_step && is_goodbye_of(x) && !of_other_registration(x)).collect();
                 j.judgements += 1;
                 match ann {
                     Some(a) => {
